@@ -40,7 +40,7 @@ func checkC14(env *kernel.Env) {
 	runDML(env, dmlCfg{
 		Check: "C14",
 		Schema: func(env *kernel.Env) SchemaOpts {
-			return SchemaOpts{Composite: true, StrPK: !env.Avoid("composite-string-pk-collision"), CI: !env.Avoid("ci-unique-not-enforced"),
+			return SchemaOpts{Keyless: true, Composite: true, StrPK: !env.Avoid("composite-string-pk-collision"), CI: !env.Avoid("ci-unique-not-enforced"),
 				PrefixKeys: true, NotNull: true}
 		},
 		Kinds:     []string{"insert", "insert", "insert", "insert-ignore", "replace", "odku", "update", "delete"},
